@@ -60,3 +60,29 @@ CHECKS['C25'] = dict(
                  'csr_matmat_pass2 result is compared by value only (it neither sorts columns nor shrinks arrays, as in SciPy)',
                  'matrices up to 8x8; ASan/UBSan report every memory error executed', 'sampling, not proof'],
 )
+
+CHECKS['C13'] = dict(
+    variants=['asan'],
+    targets=['build/bin/c13'],
+    binaries=['build/bin/c13'],
+    quick=dict(runs=3000, workers=16, chunk=20, wall_cap=600),
+    thorough=dict(runs=60000, workers=16, chunk=20, wall_cap=3000),
+    run_timeout=60,
+    shrink_keys=['ops', 'outputs', 'pool'],
+    expected_probes=['reinit', 'reinit_cse_on_to_off', 'reinit_cse_off_to_on', 'reinit_fewer_outputs',
+                     'reinit_more_outputs', 'failed_init', 'reinit_after_failed_init_or_move', 'moved',
+                     'cse_on_off_compared', 'compared_with_reference_evaluation'],
+    rule=('one run = a seeded history (5-55 steps) on 1-3 long-lived LambdaRealDoubleVisitor / '
+          'LambdaComplexDoubleVisitor objects: init with 1-4 inputs and 1-7 outputs generated over all node kinds '
+          'the visitors accept (sharing between outputs so CSE has work), re-init with more/fewer outputs and the CSE '
+          'flag flipped, failing inits (unknown symbol, unsupported node), calls at nice and random points, '
+          'move-construct/assign; steps of different objects interleave. Non-trivial = at least one successful '
+          're-initialisation and >=2 judged calls; distinct = distinct event-log hash.'),
+    state_measure='not tracked (distinct event logs are the measure)',
+    components=dict(real=REAL_COMMON + ['LambdaDoubleVisitor templates (header code compiled into the harness)', 'cse()', 'libm'],
+                    stub=['history of init/call/move operations (seeded plan)', 'independent recursive reference evaluator (sim/refeval.h)']),
+    assumptions=['exact-equality oracle: a fresh evaluator initialised with the same arguments builds the same closures, so results must be bit-identical',
+                 'value oracle (CSE on/off, harness reference evaluator) applied only where every subexpression is finite and 4 perturbations of 1e-9 (complex: also off the real axis) change the result by < 1e-6 relative; tolerance 1e-6',
+                 'the state left by a failed init is not judged until the next successful init',
+                 'expressions <= depth 4; LLVM evaluators are C14, not covered', 'sampling, not proof'],
+)
